@@ -18,7 +18,7 @@ def prog(t, kinds):
     out = []
     for i, k in enumerate(kinds):
         if k in ('cl', 'rc'):
-            out.append('%s=%d,%s' % (k, 1000 + t, ('bye%d.%d' % (t, i)).encode().hex()))
+            out.append('%s=%d,%s' % (k, 1000 + t, ('{bye} {0} {} %%s bye%d.%d' % (t, i)).encode().hex()))
         else:
             out.append(_one(t, i, k))
     return out
@@ -28,9 +28,9 @@ def _one(t, i, k):
     if k in ('st1', 'st0', 'sb1', 'sb0'):
         return '%s=%s' % (k, c11.msg(t, i))
     if k in ('pi', 'po', 'rp'):
-        return '%s=%s' % (k, ('p%d.%d' % (t, i)).encode().hex())
-    if k == 'tk':
-        return 'tk'
+        return '%s=%s' % (k, ('{p} {0} %%d p%d.%d' % (t, i)).encode().hex())
+    if k in ('tk', 'cn'):
+        return k
     raise ValueError(k)
 
 
@@ -106,6 +106,28 @@ def line_witnesses():
     return out
 
 
+def before_connect_cases(rng, tier):
+    """the racing calls start BEFORE the event loop is first advanced: an application thread is somewhere inside close() / a send
+    (possibly inside the write lock) while the loop thread connects, stores the socket, writes the request and reads the reply
+    (loop program `cn`); then the other application thread runs.  Directed: thread 0 runs a steps, the loop connects completely,
+    thread 0 runs b more steps, thread 1 runs completely, the rest is drained - for every a, b; plus uniformly random schedules.
+    Judged by the oracle alone (the thread model starts from an established connection)."""
+    shapes = [[['cl'], ['st0'], ['cn']], [['cl'], ['cl'], ['cn']], [['st0'], ['cl'], ['cn']], [['cl'], ['pi'], ['cn', 'rp']],
+              [['cl', 'st0'], ['sb0'], ['cn', 'rp']]]
+    out = []
+    for kinds in shapes:
+        c = case(0, kinds)
+        loop = len(kinds) - 1
+        for a in range(0, 9):
+            for b in range(0, 9):
+                out.append(dict(z=0, progs=c['progs'], mode='sync', family='before-connect',
+                                schedule=[0] * a + [loop] * 40 + [0] * b + [1] * 30))
+        for _ in range(40 if tier == 'quick' else 600):
+            out.append(dict(z=0, progs=c['progs'], mode='sync', family='before-connect-random',
+                            schedule=[rng.randrange(len(kinds)) for _ in range(90)]))
+    return out
+
+
 def families(tier):
     fams = socket_families(tier) + [
         case(0, [['cl'], ['st0']], family='close-send'),
@@ -164,7 +186,7 @@ def explore(res, tier, seed, model_ok=True):
                 'granularity, and the two schedules of the window after a FAILED Close write; (b) for each family - close() against send_text/send_binary/send_ping/close() on other threads and against the event loop '
                 '(echo of a server Close, completion of our own close by the server\'s Close, auto-pong, auto-ping), 2-3 threads - EVERY maximal interleaving at '
                 'sync-step granularity up to the stated preemption bound, enumerated by the model driver and executed on the real code; (c) 300 (quick) / 3000 uniformly random sync-granularity schedules that also schedule threads waiting for the lock; (d) %d sampled '
-                'line-granularity schedules.  Model and real code compared on the executed step log, chunks, results, flags.  Oracle: reference decoder on the '
+                'line-granularity schedules; (e) calls that start BEFORE the event loop is first advanced, racing with the loop thread\'s connect / request / reply (directed and random schedules; oracle only).  Model and real code compared on the executed step log, chunks, results, flags.  Oracle: reference decoder on the '
                 'bytes written: <= 1 complete Close, nothing (not even a partial frame) after it, a send is on the wire iff it returned ok, losers raised a WebSocketError '
                 '(TransportFail exactly where the socket was made to fail), a close() that has returned leaves the websocket closing or closed.  '
                 'non-trivial = some thread was preempted; distinct by (programs, executed step sequence)') % (120 if quick else 1500)
@@ -175,6 +197,9 @@ def explore(res, tier, seed, model_ok=True):
     cases += enum
     cases += thrutil.random_sync_cases(rng, fams, 300 if quick else 3000)
     cases += line_cases(rng, 120 if quick else 1500)
+    pre = before_connect_cases(rng, tier)
+    res.exhaustive['before_connect: thread 0 a steps, the loop connects, thread 0 b steps, thread 1 (every a, b in 0..8; 5 program shapes)'] = sum(1 for c in pre if c['family'] == 'before-connect')
+    cases += pre
     thrutil.run_and_compare(res, cases, thrutil.judge_close, model_ok)
     res.samples += [dict(programs=thrutil.progs_str(c), z=c['z'], mode=c['mode'], schedule=''.join(map(str, c['schedule']))[:120]) for c in cases[:4] + cases[-2:]]
     seen = {f['cls'] for f in res.failures}
